@@ -106,7 +106,7 @@ class P(Prop):
             def cs(nm): return rnd.choice([nm, nm, nm, nm.lower(), nm.upper(), nm.capitalize()])
             hs = "".join("%s: %s\r\n" % (cs(nm), hv(nm)) for nm in [rnd.choice(["Content-Type", "Content-Length", "Content-Range", "X-A"]) for _ in range(rnd.randint(0, 4))])
             return ("HTTP/1.1 %s %s\r\n%s\r\n" % (code, rsn, hs)).encode() + rnd.choice([b"", b"abc", b"\xff\xfe\r\n"])
-        bd = rnd.choice(["String_separator", "B", "--x"])
+        bd = rnd.choice(["String_separator", "B", "--x", "", "-", "String_separator", "a b"])        # also the empty boundary parameter
         parts = b"\r\n".join(("--%s\r\nContent-Type: text/plain\r\nContent-Range: bytes %d-%d/%d\r\n\r\n" % (bd, rnd.randint(0, 3), rnd.randint(3, 9), rnd.randint(9, 20))).encode() + rnd.choice([b"x", b"ab\r\ncd", b"\xff"]) for _ in range(rnd.randint(0, 3)))
         return ("HTTP/1.1 206 Partial Content\r\nContent-Type: multipart/byteranges; boundary=%s\r\n\r\n" % bd).encode() + parts + ("\r\n--%s" % bd).encode()
 
